@@ -245,10 +245,6 @@ def config_of(key):
     return (cls, tuple(sorted((SEQ_FIELD[f], family_values(f)[i]) for f, i in zip(SEQ_FAMS[cls], key[1:]))))
 
 
-def all_configurations():
-    return map(config_of, slice_reference({})[0])
-
-
 def why_not(p):
     """class of a configuration that is not in the reference (for violation keys): the first rule it breaks"""
     def walk(q):
@@ -664,27 +660,39 @@ def run_unsliced(res):
     import numpy as np
     from maze_dataset.tokenization.all_tokenizers import get_all_tokenizers
 
-    gc.disable()
+    L = lib()
+    gc.disable()  # millions of live containers: the cyclic collector would dominate the run time
     rp = dict(kind="unsliced")
     toks = get_all_tokenizers()
     total = predicted_sizes()["tokenizers"]
     n = len(toks)
-    if n != total:
-        res.fail("C15|size|get_all_tokenizers|count differs from predicted product", f"len(get_all_tokenizers()) = {n}, predicted {total}", rp)
-    cache = {}
-    got = np.fromiter((int(cfg_digest(params_of_tok(t, cache)), 16) for t in toks), dtype=np.uint64, count=n)
+    icache = {}
+    extras = []
+
+    def keys():
+        for t in toks:
+            k = key_of(t, icache) if type(t) is L.MTM else None
+            if k is None:
+                extras.append(t)
+            yield int(digest(repr(k)), 16)
+
+    got = np.fromiter(keys(), dtype=np.uint64, count=n)
     res.ev(n)
     res.count("items_unsliced", n)
-    ref = np.fromiter((int(cfg_digest(p), 16) for p in all_configurations()), dtype=np.uint64, count=total)
+    if extras:
+        p = params_of_tok(extras[0], None) if type(extras[0]) is L.MTM else repr(extras[0])
+        res.fail(f"C15|all_instances|get_all_tokenizers|extra|{why_not(p)}",
+                 f"{len(extras)} enumerated object(s) outside the reference product, e.g. {ref_name_safe(p)}", rp)
+    ref = np.fromiter((int(digest(repr(k)), 16) for k in slice_reference({})[0]), dtype=np.uint64, count=total)
     got.sort()
     ref.sort()
     if len(np.unique(ref)) != total:
         raise RuntimeError("reference configurations collide under the 64-bit digest")
-    if n != total or not np.array_equal(got, ref):
-        extra, missing = np.setdiff1d(got, ref), np.setdiff1d(ref, got)
+    if not extras and (n != total or not np.array_equal(got, ref)):
+        missing = np.setdiff1d(ref, got)
         dup = n - len(np.unique(got))
         res.fail("C15|all_instances|get_all_tokenizers|configuration multiset differs from reference product",
-                 f"{len(extra)} extra, {len(missing)} missing, {dup} repeated configurations", rp)
+                 f"len(get_all_tokenizers()) = {n}, predicted {total}; {len(missing)} missing, {dup} repeated configurations", rp)
     res.count("unsliced_distinct_configurations", int(len(np.unique(got))))
 
 
